@@ -458,6 +458,18 @@ class numbers_converters_base(_check_value_base):
         allow_auto_elements=False,
     ):
         self._check_bound_types(value_min, value_max)
+        for name, value in (
+            ("size", size),
+            ("size_min", size_min),
+            ("size_max", size_max),
+        ):
+            # a size that cannot be written as an integer (size=1e999) would only
+            # fail later, as an OverflowError from a size message or from printing
+            if value is not None:
+                try:
+                    "%d" % value
+                except (ValueError, OverflowError) as e:
+                    raise TypeError("%s=%r: %s" % (name, value, e))
         assert size is None or (size_min is None and size_max is None)
         if size is not None:
             assert size > 0
